@@ -168,6 +168,15 @@ def run_case(case):
         ks = sorted(set(list(range(0, 41)) + [T - 1, T] + [rng.randint(41, T) for _ in range(60)]))
     else:
         ks = sorted(set([0, 1, max(0, T - 1), T] + [rng.randint(0, max(0, T)) for _ in range(3)]))
+    if case["tier"] == "thorough":
+        # work bound in logical units (every pause point re-runs the whole model two or three times): a long or large
+        # model must not run into the per-case wall-clock watchdog, which would make the tier inconclusive (DESIGN 5.3 #15)
+        cap = max(16, 150000 // (max(1, T) * max(4, len(spec["tasks"]))))
+        if len(ks) > cap:
+            keep = set(ks[:cap // 2]) | {T - 1, T}
+            rest = [k_ for k_ in ks if k_ not in keep]
+            ks = sorted(keep | set(rng.sample(rest, max(0, cap - len(keep)))))
+            res.count("C15.pause_points_capped_cases")
     res["source"] = "pause-resume"
     inside = False
     for k in ks:
